@@ -50,8 +50,12 @@ func mkSide(cues []cueSpec, styles, regions []string, bare bool, tag string, bar
 			s.Styles[id].InlineStyle = nil
 		}
 	}
-	for _, id := range regions {
+	for i, id := range regions {
 		s.Regions[id] = &astisub.Region{ID: id, InlineStyle: &astisub.StyleAttributes{WebVTTWidth: tag + id}}
+		if len(styles) > 0 {
+			// a region refers to a style of its own list
+			s.Regions[id].Style = s.Styles[styles[i%len(styles)]]
+		}
 		if len(bareDefs) > 0 && bareDefs[0] {
 			s.Regions[id].InlineStyle = nil
 		}
